@@ -73,6 +73,125 @@ pub(crate) mod verif_string {
 
 
     // =====================================================================================
+    // C16: substr's index arithmetic for ALL i64 start / length and ALL character counts, with the std
+    // iterator chain by contract. Assumed contract on std (trusted, stated in the evidence):
+    //   * `s.chars().count()` is the number of characters of s;
+    //   * `s.chars().skip(a).take(b).collect::<String>()` is the characters a .. min(a+b, len) of s.
+    // The stubs do not iterate: `count` returns a planned symbolic character count L, `from_iter` records
+    // the (skip, take) pair the code asked for by reading the adapter structs (layout validated by
+    // K:C16.substr.adapter_layout on every run) and the harness compares them with the spec slice.
+    // =====================================================================================
+    pub(crate) static mut SS_COUNT_CALLS: u32 = 0;
+    pub(crate) static mut SS_L: usize = 0;
+    pub(crate) static mut SS_COLLECT_CALLS: u32 = 0;
+    pub(crate) static mut SS_SKIP: usize = 0;
+    pub(crate) static mut SS_TAKE: usize = 0;
+    pub(crate) static mut SS_PTR: usize = 0;
+    pub(crate) static mut SS_END: usize = 0;
+    /// field order of Take<Skip<Chars>> as 4 machine words, established by the layout harness
+    pub(crate) const W_PTR: usize = 0;
+    pub(crate) const W_END: usize = 1;
+    pub(crate) const W_SKIP: usize = 2;
+    pub(crate) const W_TAKE: usize = 3;
+
+    pub(crate) fn chars_count_stub(c: std::str::Chars<'_>) -> usize {
+        let w: [usize; 2] = unsafe { std::mem::transmute_copy(&c) };
+        unsafe {
+            SS_COUNT_CALLS += 1;
+            SS_PTR = w[0];
+            SS_END = w[1];
+            SS_L
+        }
+    }
+    pub(crate) fn from_iter_stub<I: IntoIterator<Item = char>>(iter: I) -> String {
+        assert!(std::mem::size_of::<I>() == 4 * std::mem::size_of::<usize>(), "collect() called on something other than Take<Skip<Chars>>");
+        let w: [usize; 4] = unsafe { std::mem::transmute_copy(&iter) };
+        std::mem::forget(iter);
+        unsafe {
+            SS_COLLECT_CALLS += 1;
+            SS_SKIP = w[W_SKIP];
+            SS_TAKE = w[W_TAKE];
+            assert!(SS_COUNT_CALLS == 0 || (w[W_PTR] == SS_PTR && w[W_END] == SS_END), "the slice is taken from a different string than the one that was measured");
+        }
+        String::new()
+    }
+
+    //@ob name=C16.substr.adapter_layout props=C16 strength=complete fns=std::iter::Take,std::iter::Skip,std::str::Chars timeout=200
+    //@ desc="validation of the stub's view of std's adapter structs: for `s.chars().skip(a).take(b)` the four words are (ptr, end, a, b) for every a, b - the layout the from_iter stub relies on"
+    #[cfg_attr(kani, kani::proof)]
+    pub(crate) fn k_c16_substr_adapter_layout() {
+        let s = "ab";
+        let a: usize = kani::any();
+        let b: usize = kani::any();
+        let it = s.chars().skip(a).take(b);
+        let w: [usize; 4] = unsafe { std::mem::transmute_copy(&it) };
+        assert!(std::mem::size_of_val(&it) == 32, "Take<Skip<Chars>> is four words");
+        assert!(w[W_PTR] == s.as_ptr() as usize && w[W_END] == s.as_ptr() as usize + 2, "ptr / end words");
+        assert!(w[W_SKIP] == a && w[W_TAKE] == b, "skip / take words");
+        let c = s.chars();
+        let cw: [usize; 2] = unsafe { std::mem::transmute_copy(&c) };
+        assert!(cw[0] == s.as_ptr() as usize && cw[1] == s.as_ptr() as usize + 2, "Chars is (ptr, end)");
+        kani::cover!(true, "checked");
+    }
+
+    /// has_len: 0 = two operands, 1 = three operands
+    pub(crate) fn body_substr_arith(has_len: bool) {
+        let l: usize = kani::any();
+        unsafe { SS_L = l };
+        let start: i64 = kani::any();
+        let len: i64 = kani::any();
+        // the concrete string has ONE character in TWO bytes: a body that measures bytes sees 2, not 1
+        let sv = MD::new(Value::String(String::from("\u{e4}")));
+        let iv = MD::new(Value::Number(Number::from(start)));
+        let lv = MD::new(Value::Number(Number::from(len)));
+        let mut items: Vec<&Value> = Vec::with_capacity(3);
+        items.push(&*sv);
+        items.push(&*iv);
+        if has_len {
+            items.push(&*lv);
+        }
+        let items = MD::new(items);
+        let r = MD::new(substr(&items));
+        kani::cover!(true, "returned");
+        assert!(matches!(&*r, Ok(Value::String(_))), "substr(string, integer[, integer]) returns a string for every integer");
+        assert!(unsafe { SS_COLLECT_CALLS } == 1, "exactly one slice is produced");
+        // the character count the spec works with: what the code measured by contract, or - if it never
+        // counted characters - the real character count of the string
+        let n = if unsafe { SS_COUNT_CALLS } > 0 { l } else { 1 };
+        let (s, e) = spec_substr_range(n, start, if has_len { Some(len) } else { None });
+        let sk = unsafe { SS_SKIP };
+        let tk = unsafe { SS_TAKE };
+        // effective slice of skip(sk).take(tk) on n characters
+        let es = if sk < n { sk } else { n };
+        let ee = match es.checked_add(tk) {
+            Some(x) if x < n => x,
+            _ => n,
+        };
+        if e > s {
+            assert!(es == s && ee == e, "substr: the slice is not the characters the statement describes (skip start / from the end, take n / stop n before the end, clamped)");
+        } else {
+            assert!(ee == es, "substr: the slice must be empty here");
+        }
+    }
+    macro_rules! substr_arith_harness {
+        ($name:ident, $has_len:expr) => {
+            #[cfg_attr(kani, kani::proof)]
+            #[cfg_attr(kani, kani::stub(<std::str::Chars<'_> as std::iter::Iterator>::count, chars_count_stub))]
+            #[cfg_attr(kani, kani::stub(<std::string::String as std::iter::FromIterator<char>>::from_iter, from_iter_stub))]
+            #[cfg_attr(kani, kani::stub(std::fmt::format, crate::verif_support::fmt_stub))]
+            pub(crate) fn $name() {
+                body_substr_arith($has_len);
+            }
+        };
+    }
+    //@ob name=C16.substr.arith.2 harness=k_c16_substr_arith_2 props=C16,C01 strength=complete fns=op::string::substr stubs=3 timeout=300
+    //@ desc="substr(s, i): for EVERY i64 i and EVERY character count, the (skip, take) handed to the std iterator chain selects exactly the characters from i (or from the end for negative i) to the end, clamped; lengths are measured in characters (std chain by contract)"
+    substr_arith_harness!(k_c16_substr_arith_2, false);
+    //@ob name=C16.substr.arith.3 harness=k_c16_substr_arith_3 props=C16,C01 strength=complete fns=op::string::substr stubs=3 timeout=300
+    //@ desc="substr(s, i, n): for EVERY pair of i64 and EVERY character count, the slice is: skip i / count from the end; take n / stop |n| before the end; clamped to the string (std chain by contract)"
+    substr_arith_harness!(k_c16_substr_arith_3, true);
+
+    // =====================================================================================
     // C16: cat - concatenation of the operands' string forms, in order; strings unchanged.
     // to_string by contract: the string form of operand i is the planned label L_i (one ASCII byte)
     // for non-strings; string operands must pass through WITHOUT conversion.
